@@ -446,6 +446,7 @@ func runC08(c *Ctx) error {
 			c.R.Fail(lib.Failure{Case: name, Ops: append(ops, "roots 0 -"), What: "batch size 0 is not answered with an empty page", Observed: out, Signature: "c08-zero"})
 		}
 		// every stored merkle root and unknown keys as starting key
+		zeroDone := map[string]bool{}
 		for i := range t.rows {
 			r := &t.rows[i]
 			bs := 1 + rng.Intn(chainLen+1)
@@ -457,9 +458,22 @@ func runC08(c *Ctx) error {
 			c.R.Count("key:"+r.State, 1)
 			c08PageCheck(c, t, name, ops, op, bs, r.Merkle, out)
 			c.R.Case(name+op, r.State != "LONGEST_CHAIN")
+			// the same key with batch size 0: the key is judged first, whatever the size
+			op = "roots 0 " + r.Merkle
+			if out, err = both(c, ci, l, name, ops, op); err != nil {
+				return err
+			}
+			c08PageCheck(c, t, name, ops, op, 0, r.Merkle, out)
+			c.R.Count("key with batch size 0:"+r.State, 1)
 		}
-		for _, k := range []string{"deadbeef", strings.Repeat("ab", 32), "x"} {
+		for _, k := range []string{"deadbeef", strings.Repeat("ab", 32), "x", "deadbeef", "x"} {
 			op := "roots 3 " + k
+			if k == "deadbeef" || k == "x" {
+				if zeroDone[k] {
+					op = "roots 0 " + k // an unknown key is not found whatever the batch size
+				}
+				zeroDone[k] = true
+			}
 			out, err := both(c, ci, l, name, ops, op)
 			if err != nil {
 				return err
@@ -730,6 +744,38 @@ func runC13(c *Ctx) error {
 			}
 			c13GetHeadersCheck(c, t, name, ctxOps, op, loc, stop, out)
 			c.R.Case(name+op, mixes)
+		}
+		// long locators (the wire format allows 500 hashes) in orders a peer may use: ascending, shuffled, with stale / unknown
+		// entries in front — the start is the HIGHEST locator entry on the longest chain wherever it stands in the list
+		if int(t.best.Height) > 320 {
+			for v := 0; v < 6; v++ {
+				var loc []string
+				n := 101 + rng.Intn(380)
+				lo := int64(1 + rng.Intn(40))
+				for i := 0; i < n && lo+int64(i) <= t.best.Height; i++ {
+					loc = append(loc, t.chain[lo+int64(i)].Hash)
+				}
+				switch v % 3 {
+				case 1:
+					rng.Shuffle(len(loc), func(i, j int) { loc[i], loc[j] = loc[j], loc[i] })
+				case 2:
+					pre := []string{display(shaStr(fmt.Sprint("longloc", v)))}
+					if len(nonLc) > 0 {
+						pre = append(pre, nonLc[rng.Intn(len(nonLc))])
+					}
+					loc = append(pre, loc...)
+				}
+				for _, stop := range []string{zero, t.chain[lo+int64(len(loc))/2].Hash, t.best.Hash} {
+					op := "getheaders " + stop + " " + strings.Join(loc, " ")
+					out, err := both(c, ci, l, name, ctxOps, op)
+					if err != nil {
+						return err
+					}
+					c13GetHeadersCheck(c, t, name, ctxOps, op, loc, stop, out)
+					c.R.Case(name+op, true)
+					c.R.Count("getheaders:long-locator(>100 hashes, ascending / shuffled / stale-first)", 1)
+				}
+			}
 		}
 		// boundary probes around the per-message cap: stop exactly cap-1, cap, cap+1, cap+2 above the start
 		if int(t.best.Height) > 2010 {
